@@ -13,11 +13,12 @@ CONSTANTS
   UseFollower = FALSE
   UseBounded = FALSE
   C0 = "c1"
+  UseGrpc = TRUE
   UseRace = TRUE
   MaxElect = 2
   StrandedKnown = TRUE
   UseBad = FALSE
-INVARIANTS TypeOK MC_OneActive ActiveRegistered RegOK
+INVARIANTS TypeOK MC_OneActive C13_StreamEnded ActiveRegistered RegOK
 PROPERTIES StepsOK
 VIEW MCView
 CHECK_DEADLOCK FALSE
